@@ -134,7 +134,7 @@ func Explore(prog *ssa.Program, fn *ssa.Function, opt Options) (res Result) {
 		i := NewInterp(prog, &types.StdSizes{WordSize: 8, MaxAlign: 8})
 		ex := &Exec{solver: solver, prefix: prefix, work: &work, Viol: &res.Violations, Stats: &res.Stats,
 			maxDec: opt.MaxDec, maxSteps: opt.MaxSteps, maxMake: opt.MaxMake, known: opt.Known, deadline: deadline,
-			mapOrderND: opt.MapOrderND, mapOrderMax: opt.MapOrderMax, tier: opt.Tier, maxCex: opt.MaxCex, maxRand: 8}
+			mapOrderND: opt.MapOrderND, mapOrderMax: opt.MapOrderMax, tier: opt.Tier, maxCex: opt.MaxCex, maxRand: 12}
 		i.ex = ex
 		i.funcs = res.Functions
 		func() {
